@@ -201,8 +201,8 @@ func (r *runner) valid(o *Op) bool {
 		}
 		return false
 	case "remap":
-		if o.N == 0 || o.N >= 1<<40 {
-			return false
+		if o.N == 0 || o.N >= 1<<40 || r.buddy {
+			return false // buddy: whether a block of the right size exists is not a question of capacity
 		}
 		np := r.pagesOf(o.N)
 		return r.liveRange(r.pids[o.C], o.A, np) && r.capacity(o.D, np, true)
@@ -640,9 +640,13 @@ func buddyCoq(c *Case) string {
 			}
 			sizes[key{pids[o.C], o.Ret[0]}] = np
 		case "remap":
-			// Remap takes them with one allocateMultiplePages call; the old pages are not given back
+			// Remap takes them with one allocateMultiplePages call
 			np := (o.N-1)/ps + 1
 			items = append(items, fmt.Sprintf("(BAlloc %d, %s)", np, vh.CoqNList(pasOf(o.Snap, pids[o.C], o.A, np))))
+			if i > 0 {
+				// ... and then gives the previous pages of the range back, page by page
+				items = append(items, fmt.Sprintf("(BFree %s, [])", vh.CoqNList(pasOf(c.Ops[i-1].Snap, pids[o.C], o.A, np))))
+			}
 		case "free":
 			k := key{pids[o.C], o.A}
 			if i > 0 {
